@@ -370,8 +370,8 @@ fn main() {
         let s2 = &replies[4 * k + 3];
         let nt = o.feat.rels > 0 && o.feat.edgy_string && o.feat.nonscalar;
         rep.case(&o.ops_txt, nt);
-        if o.src_edges >= 60 {
-            rep.count("big-graph(>=60 relationships)");
+        if o.src_edges >= 50 {
+            rep.count("big-graph(>=50 relationships)");
         }
         if o.edge_id_hole_crosses_64 {
             rep.count("relationship-id-holes-cross-a-64-multiple");
@@ -405,7 +405,7 @@ fn main() {
             o.ops_txt, o.src, o.real, m, s, o.import_err
         );
         // the header announces what the body holds
-        if let Some((hn, he)) = o.header_counts {
+        if let (Some((hn, he)), true) = (o.header_counts, s == "ok" && o.import_err.is_none()) {
             if hn as usize != o.src_nodes || he as usize != o.src_edges {
                 rep.count("spec_violation:export-header-count");
                 rep.spec_violation(
